@@ -32,21 +32,22 @@ Proof. exact num_digits_correct. Qed.
 Print Assumptions C19_numdigits_partial.
 
 (* Decimal.Reduce: same value, no trailing zero, exact count, function of the operand only *)
-Theorem C19_reduce_nonzero x : form_of x = Finite -> 0 < coeff x ->
-  exists d n, dreduce x = Ok (d, n) /\ 0 <= n /\
+(* [est]: the float estimate used by NumDigits above the table; Reduce does not depend on it at all *)
+Theorem C19_reduce_nonzero est x : form_of x = Finite -> 0 < coeff x ->
+  exists d n, dreduce est x = Ok (d, n) /\ 0 <= n /\
     form_of d = Finite /\ neg d = neg x /\ exp d = exp x + n /\ coeff x = coeff d * 10 ^ n /\
     0 < coeff d /\ coeff d mod 10 <> 0.
-Proof. exact (dreduce_nonzero x). Qed.
+Proof. exact (dreduce_nonzero est x). Qed.
 Print Assumptions C19_reduce_nonzero.
 
-Theorem C19_reduce_zero x : form_of x = Finite -> coeff x = 0 -> dreduce x = Ok (mkDec Finite false 0 0, 0).
-Proof. exact (dreduce_zero x). Qed.
+Theorem C19_reduce_zero est x : form_of x = Finite -> coeff x = 0 -> dreduce est x = Ok (mkDec Finite false 0 0, 0).
+Proof. exact (dreduce_zero est x). Qed.
 Print Assumptions C19_reduce_zero.
 
-Theorem C19_reduce_special x : form_of x <> Finite -> dreduce x = Ok (x, 0).
-Proof. exact (dreduce_special x). Qed.
+Theorem C19_reduce_special est x : form_of x <> Finite -> dreduce est x = Ok (x, 0).
+Proof. exact (dreduce_special est x). Qed.
 Print Assumptions C19_reduce_special.
 
 (* non-vacuity: a concrete value meeting the hypotheses *)
-Example C19_example : dreduce (mkDec Finite true (-2) 120000) = Ok (mkDec Finite true 2 12, 4).
+Example C19_example : dreduce go_est (mkDec Finite true (-2) 120000) = Ok (mkDec Finite true 2 12, 4).
 Proof. vm_compute. reflexivity. Qed.
